@@ -31,6 +31,12 @@ CHECKS["C06"] = ("model_checking", "bounded-exhaustive exploration of the real c
 CHECKS["C13"] = ("model_checking", "exhaustive enumeration of override tables (all singles, all ordered pairs over a small key universe) x all active-key lists up to length 4 in every order through the real Overrides::override_keys against a reference substitution; plus bounded-exhaustive lock-step exploration of the full pipeline (all histories of D steps) against a pipeline model",
   "The pure key-list transformation equals the reference on every (table, list) of the stated finite space; every explored pipeline execution equals the pipeline model event for event (per-tick), and nothing stays pressed after release.",
   "4 of the 8 modifiers in the exhaustive part (all 8 in a thorough-tier mask sweep); intra-tick order not compared in the pipeline part", "DESIGN.md §4 C13")
+CHECKS["C11"] = ("exploration", "exhaustive enumeration of complete finite spaces: all 65536 code values, the two enum discriminant sets read from source, every scraped key name and every code 0..767 through the real pipeline in three configs, and all mapped-key configurations of a small pool",
+  "Round trip is the identity on every u16; OsCode and KeyCode coincide value for value; every name and every code comes out as the code that went in; no-op codes are never sent; the intercepted set equals the specified union on every enumerated configuration (exhaustive=true).",
+  "Linux code space; the evdev pass-through branch is not executed, the set it consults is checked", "DESIGN.md §4 C11")
+CHECKS["C14"] = ("model_checking", "bounded-exhaustive exploration of the real code: all histories of D steps including OS repeat events at every point, over a generated universe of key-producing action forms nested up to depth 2 on 1-3 layers with/without overrides; per-step safety oracle and a completeness probe at every leaf",
+  "No explored repeat event produces more than one output, a non-repeat output, or a repeat for a key that is up at the OS; wherever a single held physical key holds output keys down, its repeat is forwarded to one of them. Exhaustive over the stated space.",
+  "completeness probed only where the attribution of the down-set to the held key is certain (single non-layer key, no layer released since its press)", "DESIGN.md §4 C14")
 NOT_YET = {}
 props = [json.loads(l) for l in open('/verif/properties.jsonl')]
 hooks_commits = subprocess.run(["git","-C","/repo","log","--format=%h %s"],capture_output=True,text=True).stdout.splitlines()
